@@ -13,7 +13,7 @@ PROP = dict(
          "forwarding probe) or one public operation of the real Editor (`ed` records: keys in all four states, API calls, "
          "option/layout/engine changes; generated histories, plus scripted histories (run editor-c05-overshoot) in which one "
          "step overshoots auto_commit_threshold by two or more: a two-character easy-symbol expansion at a full buffer, the "
-         "limit lowered by >= 2 in mid-composition followed by editing keys), recomputed by the model from the implementation's own full "
+         "limit lowered by >= 2 in mid-composition followed by editing keys; and an editing sweep over every cursor position), recomputed by the model from the implementation's own full "
          "pre-state and compared on the complete post-state; distinct = distinct record text",
     trusted_base=["no kernel enumeration: all theorems are structural (induction over operation lists / histories, case "
                   "analysis over the arms of the state machine, simp/omega over lists)",
@@ -35,7 +35,10 @@ MANIFEST = dict(
          "touches its pre-edit buffer only through CompositionEditor methods (Reach), hence cursor <= len after every public "
          "operation and every history (cursor_le_len_editor); per-key theorems backspace_key, delete_key, move_key, "
          "symbol_key_inserts_at_cursor, easy_symbol_expansion, syllable_commit_inserts_one (a completed syllable with a word "
-         "is inserted exactly at the cursor, cursor + 1, nothing else moves), bounded_after_key. Tie: per-step correspondence "
+         "is inserted exactly at the cursor, cursor + 1, nothing else moves), and the bound: tryAutoCommit_bound (the auto-commit "
+         "loop re-establishes len <= auto_commit_threshold, removing only a prefix), bounded_after_absorb (every absorbed key that "
+         "ends in Entering, from any state), bounded_after_key / bounded_after_key_syllable (every key handled in Entering / "
+         "EnteringSyllable that answers Absorb or Commit) under the hypothesis that the conversion tiles the buffer. Tie: per-step correspondence "
          "of both models with the real code from the implementation's own pre-state, plus a shadow list/cursor oracle "
          "written from the property text evaluated on every step of the real editor.",
     note="Trusted: Lean kernel (axioms propext, Classical.choice, Quot.sound only), the harness and the compiled model "
